@@ -60,7 +60,7 @@ class MsgPlugin:
                   "VAL", "RAWV", "SEL", "INGROUP", "READABLE", "WIREUPTO", "WIRE", "EMIT_AT", "WF", "TY", "GCV",
                   "HEAP_LIST", "HEAP_DK", "HEAP_DV", "CN", "XS", "KS", "VS", "SOWV", "FNAME_IDX", "RAWARR", "GCARR",
                   "TY_AT", "WF_AT", "F_ckind", "IDXN", "SELECT", "DEFOBJ", "UNKF", "SOWF", "GROUP_RESET", "DICTSET_K",
-                  "DICTSET_V", "ENTRY_KEY", "ENTRY_VAL", "F_name", "VALOF", "SHAPE", "STRUCT", "MEMBER", "NMEMBERS", "GROUPS_WF", "INITIALISED", "GCLOCAL", "NAMES_WF", "ALLSENT", "LASTSET", "ISSETV", "POS_OF"}
+                  "DICTSET_V", "ENTRY_KEY", "ENTRY_VAL", "F_name", "VALOF", "SHAPE", "STRUCT", "MEMBER", "NMEMBERS", "GROUPS_WF", "INITIALISED", "GCLOCAL", "NAMES_WF", "ALLSENT", "LASTSET", "ISSETV", "POS_OF", "DEFAULTS"}
 
     SPEC_CONSTS = {"NF"}
 
@@ -142,9 +142,7 @@ class MsgPlugin:
         return ex.eng.spec.call(ex, "TYFIELD", args, st).t
 
     def wf_at(self, ex, st, i, hl, hdk, hdv):
-        v = DEFOBJ(i)
-        isdef = ex.eng.spec.call(ex, "ISDEF", [sv_str(F_dkind(i)), SV("obj", v), sv_int(cn_of(hl, hdk, v))], st).t
-        return z3.And(self.wf_per(ex, st, i), isdef, z3.Implies(PyObj.is_PMsg(v), z3.Not(MSG_SOW(v))))
+        return self.wf_per(ex, st, i)
 
     def wf_per(self, ex, st, i):
         S = z3.StringVal
@@ -167,8 +165,10 @@ class MsgPlugin:
                        z3.If(z3.Or(F_optional(i), F_wraps(i) != S("")), dk == S("none"),
                              z3.If(t == S("message"), z3.Or(dk == S("message"), dk == S("datetime"), dk == S("timedelta")),
                                    dk == scalar_dk))),
-            # the materialised default is a default
+            # the materialised default is a value of the default kind (its contents are heap state: DEFAULTS())
             DEFOBJ(i) != PyObj.PPlaceholder,
+            (dk == S("list")) == PyObj.is_PList(DEFOBJ(i)),
+            (dk == S("dict")) == PyObj.is_PDict(DEFOBJ(i)),
             z3.Or(F_ckind(i) == S("datetime"), F_ckind(i) == S("timedelta"), F_ckind(i) == S("message"),
                   F_ckind(i) == S("enum"), F_ckind(i) == S("other")),
             (t == S("enum")) == (F_ckind(i) == S("enum")),
@@ -358,7 +358,10 @@ class MsgPlugin:
         if name == "EMIT_AT":
             return sv_bytes(self.emit_at(ex, st, raw, gc, hl, hdk, hdv, ex.as_int(pos[0], st)))
         if name == "WF":
-            return sv_bool(z3.And(self.wf(ex, st), self.defobj_facts(ex, st, hl, hdk, hdv)))
+            return sv_bool(self.wf(ex, st))
+        if name == "DEFAULTS":
+            # heap-dependent: the default objects of container / message kind are empty / not on the wire
+            return sv_bool(self.defobj_facts(ex, st, hl, hdk, hdv))
         if name == "TY":
             i = z3.Int("i!ty")
             return sv_bool(z3.ForAll([i], z3.Implies(z3.And(0 <= i, i < NF), self.ty_at(ex, st, raw, hl, hdk, hdv, i))))
